@@ -357,6 +357,8 @@ class SpecFun:
             for p in parts[1:]:
                 acc = self.plus(acc, p)
             out.append(app == acc)
+        if k not in (z3.Z3_OP_SEQ_EMPTY, z3.Z3_OP_SEQ_UNIT):
+            out.append(z3.Implies(z3.Length(s) == 0, app == self.zero(*extra)))
         if self.nonneg:
             out.append(app >= 0)
         return out
@@ -400,6 +402,13 @@ flat_elems = SpecFun('flat_elems', [], SeqElemS, SeqElemS,
                      plus=lambda a, b: z3.Concat(a, b))
 
 
+flat_aw = SpecFun('flat_aw', [], z3.SeqSort(SeqAwS), SeqAwS,
+                  zero=lambda: z3.Empty(SeqAwS), one=lambda l: l, plus=lambda a, b: z3.Concat(a, b))
+all_empty_md = SpecFun('all_empty_md', [], SeqSeqMdS, z3.BoolSort(),
+                       zero=lambda: z3.BoolVal(True), one=lambda ml: z3.Length(ml) == 0,
+                       plus=lambda a, b: z3.And(a, b))
+
+
 def _walk(expr, seen, out):
     stack = [expr]
     while stack:
@@ -417,17 +426,53 @@ def _walk(expr, seen, out):
             stack.append(e.body())
 
 
+def _collect_concats(formulas, seen, out):
+    stack = list(formulas)
+    while stack:
+        e = stack.pop()
+        i = e.get_id()
+        if i in seen:
+            continue
+        seen.add(i)
+        if z3.is_app(e):
+            if e.decl().kind() == z3.Z3_OP_SEQ_CONCAT:
+                out.append(e)
+            stack.extend(e.children())
+        elif z3.is_quantifier(e):
+            stack.append(e.body())
+
+
 def instantiate_axioms(formulas, rounds=3):
     """Mechanical unfolding of the SpecFun axioms on the concat structure of the
-    argument terms occurring in `formulas` (and in the unfolded axioms)."""
+    argument terms occurring in `formulas` (and in the unfolded axioms).  In addition every
+    homomorphism is applied to every concatenation term of its argument sort that occurs
+    anywhere in the formulas (so that an equation  a ++ b == c ++ d  between sequences carries
+    over to  h(a) + h(b) == h(c) + h(d))."""
     seen = set()
     done = set()
     axioms = []
     work = list(formulas)
+    cseen = set()
     for _ in range(rounds):
         apps = []
         for f in work:
             _walk(f, seen, apps)
+        concats = []
+        _collect_concats(work, cseen, concats)
+        extras = {}
+        for sf, app in apps:
+            ex = tuple(app.arg(i) for i in range(sf.nextra))
+            extras.setdefault(sf.name, {})[tuple(a.get_id() for a in ex)] = ex
+        for name, sf in SpecFun.registry.items():
+            if name not in extras and sf.nextra > 0:
+                continue
+            for c in concats:
+                if c.sort() != sf.seq_sort:
+                    continue
+                for ex in (extras.get(name, {}).values() if sf.nextra else [()]):
+                    if name not in extras and sf.nextra == 0 and not getattr(sf, 'eager', False):
+                        continue
+                    apps.append((sf, sf.f(*(list(ex) + [c]))))
         new = []
         for sf, app in apps:
             if app.get_id() in done:
